@@ -19,7 +19,7 @@ git -C /repo worktree remove --force $S/repo 2>/dev/null; rm -rf $S/repo; git -C
 git -C /repo worktree add --detach $S/repo HEAD -q || exit 2
 HEADC=$(git -C /repo rev-parse HEAD)
 sed -i "s#/repo/falcon-rust#$S/repo/falcon-rust#" $S/verif/sim/Cargo.toml
-IDS="$@"; [ -z "$IDS" ] && IDS=$(ls /verif/seeded)
+IDS="$@"; [ -z "$IDS" ] && IDS=$(ls /verif/seeded | grep -v not-kept)
 missed=0
 for id in $IDS; do
     prop=${id%%-*}
